@@ -39,6 +39,19 @@ class ConfirmMap(Opaque):
         self.mult = z3.Store(self.mult, k, mult)
 
 
+def _vars(e):
+    out, seen, work = [], set(), [e]
+    while work:
+        x = work.pop()
+        if x.get_id() in seen:
+            continue
+        seen.add(x.get_id())
+        if z3.is_const(x) and x.decl().kind() == z3.Z3_OP_UNINTERPRETED:
+            out.append(x)
+        work += x.children()
+    return out
+
+
 def confirm_parts(ex, st, v):
     """Confirm value -> (kind bv64, tag bv64, multiple Bool)"""
     if isinstance(v, Lazy):
@@ -97,6 +110,51 @@ def summaries():
     def hm_new(ex, st, fn, argv):
         return [(st, ConfirmMap('new', empty=True))]
 
+    def hm_contains(ex, st, fn, argv):
+        m = deref(ex, st, argv[0])
+        return [(st, Bool(z3.Select(m.present, deref(ex, st, argv[1]).bv)))]
+
+    def hm_get(ex, st, fn, argv):
+        m = deref(ex, st, argv[0])
+        k = deref(ex, st, argv[1]).bv
+        outs = []
+        for (s, a, truth) in ex.fork_on(st, z3.Select(m.present, k), argv):
+            mm = deref(ex, s, a[0])
+            outs.append((s, mk_option(Ref(Cell(mm.get(deref(ex, s, a[1]).bv), 'entry'))) if truth else mk_option()))
+        return outs
+
+    def hm_is_empty(ex, st, fn, argv):
+        m = deref(ex, st, argv[0])
+        return [(st, Bool(m.present == z3.K(BV64, z3.BoolVal(False))))]
+
+    def hm_clear(ex, st, fn, argv):
+        deref(ex, st, argv[0]).present = z3.K(BV64, z3.BoolVal(False))
+        return [(st, Unit())]
+
+    def hm_retain(ex, st, fn, argv):
+        """retain(|k, v| pred): the predicate is executed once on a symbolic key; the surviving set is { k present : pred(k) } (array lambda).
+        The closure must decide without branching on the key (otherwise unsupported)."""
+        m = deref(ex, st, argv[0])
+        q = z3.BitVec(f"retain.key{len(st.pc)}", 64)
+        n0 = len(st.pc)
+        old = m.present
+        mref = argv[0]
+
+        def post(ex2, st2, rv):
+            for c in st2.pc[n0:]:
+                if any(z3.eq(q, v_) for v_ in _vars(c)):
+                    raise Unsupported('HashMap::retain: the predicate branches on the key')
+            if not isinstance(rv, Bool):
+                raise Unsupported('HashMap::retain: predicate result is not a boolean')
+            deref(ex2, st2, mref).present = z3.Lambda([q], z3.And(z3.Select(old, q), rv.b))
+            return Unit()
+        return [(st, ('CALL', argv[1], [Ref(Cell(Int(q, 64, False), 'retain-key')), Ref(Cell(m.get(q), 'retain-val'))], ('custom', post)))]
+
+    S.append((r'^HashMap::<u64, (confirm::)?Confirm>::contains_key', hm_contains))
+    S.append((r'^HashMap::<u64, (confirm::)?Confirm>::get(::<.*>)?$', hm_get))
+    S.append((r'^HashMap::<u64, (confirm::)?Confirm>::is_empty$', hm_is_empty))
+    S.append((r'^HashMap::<u64, (confirm::)?Confirm>::clear$', hm_clear))
+    S.append((r'^HashMap::<u64, (confirm::)?Confirm>::retain::<', hm_retain))
     S.append((r'^HashMap::<u64, (confirm::)?Confirm>::remove', hm_remove))
     S.append((r'^HashMap::<u64, (confirm::)?Confirm>::insert', hm_insert))
     S.append((r'^HashMap::<u64, (confirm::)?Confirm>::new$', hm_new))
@@ -115,15 +173,18 @@ def oracle_kind(inputs, t):
     return e
 
 
-def valid_history(inputs, exp0):
-    """each tag is confirmed once: no stale tags, no tag confirmed twice, multiples strictly advance"""
+def valid_history(inputs, exp0, W=8):
+    """each tag is confirmed once: no stale tags; a single names a tag nobody covered yet; a multiple covers at least one tag
+    nobody covered yet (tags of its range that were already confirmed individually - its own tag included - keep their first
+    outcome: "a multiple confirmation covering only the tags not already confirmed individually")"""
     cs = []
     for i, (k, t, m) in enumerate(inputs):
         cs.append(z3.UGE(t, exp0))
-        for j in range(i):
-            kj, tj, mj = inputs[j]
-            cs.append(t != tj)
-            cs.append(z3.Implies(mj, z3.UGT(t, tj)))   # not already covered by an earlier multiple
+        earlier = inputs[:i]
+        def fresh(x):
+            return z3.Not(z3.Or(*[covers(e, x) for e in earlier])) if earlier else z3.BoolVal(True)
+        some_new = z3.Or(*[z3.And(z3.ULE(exp0 + d, t), fresh(exp0 + d)) for d in range(W)])
+        cs.append(z3.If(m, some_new, fresh(t)))
     return z3.And(*cs) if cs else z3.BoolVal(True)
 
 
@@ -260,7 +321,7 @@ def body(ctx):
     nontriv = 0
     for pi, st in enumerate(paths):
         inputs, outs = st.roots['inputs'], st.roots['outputs']
-        valid = valid_history(inputs, exp0)
+        valid = valid_history(inputs, exp0, W)
         pc = st.pc + [valid]
         if ctx.check_sat('reach', pc) is None:
             continue
